@@ -3,6 +3,8 @@ From Coq Require Import ZArith List Ascii String Bool Lia Znumtheory.
 From GeosV.C10 Require Import NumDefs.
 Import ListNotations.
 Local Open Scope Z_scope.
+Arguments declen : simpl never.
+Arguments digits_of : simpl never.
 
 (* ------------------------------------------------------------------ arithmetic helpers *)
 Lemma div_eucl_pair : forall a b, Z.div_eucl a b = (a / b, a mod b).
@@ -147,21 +149,667 @@ Lemma digits_of_nonempty : forall n, small n -> exists c t, digits_of n = c :: t
 Proof.
   intros n Hs. pose proof (digits_of_length n) as L. pose proof (digits_of_all_digits n) as F.
   destruct (declen_spec n Hs) as (A & _).
-  destruct (digits_of n) as [|c t]; [cbn in L; lia|].
+  destruct (digits_of n) as [|c t]; [change (List.length (@nil ascii)) with 0%nat in L; lia|].
   exists c, t. split; [reflexivity|]. inversion F; assumption.
 Qed.
 
 Lemma small_17 : forall n, 0 <= n < 10 ^ 17 -> small n.
 Proof. intros n H. split; [lia|]. eapply Z.lt_le_trans; [apply H|]. apply pow10_le. lia. Qed.
 
+Lemma declen_unique_Z : forall n k, small n -> 1 <= k -> n < 10 ^ k -> (k = 1 \/ 10 ^ (k - 1) <= n) -> Z.of_nat (declen n) = k.
+Proof.
+  intros n k Hs Hk Hlt Hge.
+  rewrite (declen_unique n (Z.to_nat k)); try assumption; try lia.
+  - rewrite Z2Nat.id by lia. assumption.
+  - destruct Hge as [-> | Hge]; [left; reflexivity | right]. rewrite Z2Nat.id by lia. assumption.
+Qed.
+
+Ltac pow_norm :=
+  repeat match goal with
+         | |- context [10 ^ ?k] => let x := eval vm_compute in (10 ^ k) in change (10 ^ k) with x
+         end.
+
 Lemma decimalLength17_declen : forall v, 0 <= v < 10 ^ 17 -> decimalLength17 v = Z.of_nat (declen v).
 Proof.
   intros v H. pose proof (small_17 v H) as Hs.
-  assert (forall k : nat, (1 <= k)%nat -> v < 10 ^ Z.of_nat k -> (k = 1%nat \/ 10 ^ (Z.of_nat k - 1) <= v) -> Z.of_nat k = Z.of_nat (declen v)) as U.
-  { intros k A B C. f_equal. symmetry. apply declen_unique; assumption. }
   change (10 ^ 17) with 100000000000000000 in H.
   unfold decimalLength17.
-  repeat match goal with |- context [?a <=? v] => destruct (Z.leb_spec a v) end;
-  match goal with |- ?k = _ => apply (U (Z.to_nat k)) end;
-  try (cbn; lia); try (right; cbn; lia); try (left; reflexivity).
+  repeat match goal with |- (if ?a <=? v then _ else _) = _ => destruct (Z.leb_spec a v) end;
+  symmetry; apply declen_unique_Z; try assumption; try lia; pow_norm; lia.
+Qed.
+
+(* ------------------------------------------------------------------ rounding to `precision` decimals (the block `adapt` of to_chars_fixed) *)
+Lemma declen_div10 : forall n, small n -> 10 <= n -> declen (n / 10) = (declen n - 1)%nat.
+Proof.
+  intros n Hs H10.
+  destruct (declen_spec n Hs) as (A & B & C).
+  assert (small (n / 10)) as Hs'.
+  { destruct Hs. split; [apply Z.div_pos; lia|]. apply Z.div_lt_upper_bound; lia. }
+  destruct C as [C | C].
+  { rewrite C in B. change (10 ^ Z.of_nat 1) with 10 in B. lia. }
+  assert (2 <= declen n)%nat as A2.
+  { destruct (Nat.le_gt_cases 2 (declen n)); [assumption|]. replace (declen n) with 1%nat in B by lia. change (10 ^ Z.of_nat 1) with 10 in B. lia. }
+  apply declen_unique; try assumption; try lia.
+  - apply Z.div_lt_upper_bound; [lia|].
+    replace (Z.of_nat (declen n)) with (Z.of_nat (declen n - 1) + 1) in B by lia. rewrite pow10_S in B by lia. lia.
+  - destruct (Nat.eq_dec (declen n - 1) 1) as [E | NE]; [left; assumption | right].
+    apply Z.div_le_lower_bound; [lia|].
+    replace (Z.of_nat (declen n) - 1) with ((Z.of_nat (declen n - 1) - 1) + 1) in C by lia. rewrite pow10_S in C by lia. lia.
+Qed.
+
+Lemma strip_zeros_spec : forall fuel o e l, 0 <= o -> small o ->
+  let '(o', e', l') := strip_zeros fuel o e l in
+  o' * 10 ^ (e' - e) = o /\ e <= e' /\ 0 <= o' /\ small o' /\ (o = 0 -> o' = 0 /\ e' = e) /\ (0 < o -> 0 < o') /\
+  (1 <= o -> l = Z.of_nat (declen o) -> l' = Z.of_nat (declen o')).
+Proof.
+  induction fuel; intros o e l H0 Hs; cbn [strip_zeros].
+  - rewrite Z.sub_diag. change (10 ^ 0) with 1. repeat split; try lia; try apply Hs; auto.
+  - destruct (Z.eqb_spec o 0) as [-> | Hne]; cbn [negb andb].
+    + rewrite Z.sub_diag. change (10 ^ 0) with 1. repeat split; try lia.
+    + destruct (Z.eqb_spec (o mod 10) 0) as [Hm | Hm].
+      * assert (o = 10 * (o / 10)) as Ho by (pose proof (Z.div_mod o 10 ltac:(lia)); lia).
+        assert (10 <= o) as H10 by lia.
+        assert (small (o / 10)) as Hs' by (destruct Hs; split; [apply Z.div_pos; lia | apply Z.div_lt_upper_bound; lia]).
+        specialize (IHfuel (o / 10) (e + 1) (l - 1) ltac:(apply Z.div_pos; lia) Hs').
+        destruct (strip_zeros fuel (o / 10) (e + 1) (l - 1)) as [[o' e'] l'].
+        destruct IHfuel as (A & B & C & D & E & F & G).
+        split.
+        { replace (e' - e) with ((e' - (e + 1)) + 1) by lia. rewrite pow10_S by lia. lia. }
+        repeat split; try lia; try apply D.
+        intros _ Hl. apply G; [lia|]. rewrite declen_div10 by assumption.
+        destruct (declen_spec o Hs) as (A1 & _). lia.
+      * rewrite Z.sub_diag. change (10 ^ 0) with 1. repeat split; try lia; try apply Hs; auto.
+Qed.
+
+Lemma round_half_even_bound : forall n d, 0 < d -> 2 * Z.abs (round_half_even n d * d - n) <= d.
+Proof.
+  intros n d Hd. unfold round_half_even. rewrite div_eucl_pair.
+  pose proof (Z.div_mod n d ltac:(lia)). pose proof (Z.mod_pos_bound n d Hd).
+  destruct (Z.compare_spec (2 * (n mod d)) d); [destruct (Z.even (n / d))| |]; nia.
+Qed.
+
+Lemma round_half_even_nonneg : forall n d, 0 <= n -> 0 < d -> 0 <= round_half_even n d.
+Proof.
+  intros n d Hn Hd. unfold round_half_even. rewrite div_eucl_pair.
+  assert (0 <= n / d) by (apply Z.div_pos; lia).
+  destruct (2 * (n mod d) ?= d); [destruct (Z.even (n / d))| |]; lia.
+Qed.
+
+(* what `adapt` computes: the digits rounded half-even to `precision` decimals, trailing zeros removed *)
+Lemma adapt_spec : forall m e prec, 1 <= m < 10 ^ 17 -> e < 0 -> 0 <= prec ->
+  let '(o', e', l') := adapt m e (decimalLength17 m) prec in
+  (- e <= prec -> o' = m /\ e' = e) /\
+  (prec < - e -> o' * 10 ^ (e' - e) = round_half_even m (10 ^ (- e - prec)) * 10 ^ (- e - prec)) /\
+  e <= e' /\ 0 <= o' < 10 ^ 17 /\ (o' = 0 \/ l' = Z.of_nat (declen o')) /\ (prec < - e -> - prec <= e') /\
+  (o' = 0 -> e' <= 0) /\ (0 < o' -> l' + e' <= decimalLength17 m + e + 1).
+Proof.
+  intros m e prec Hm He Hp.
+  assert (small m) as Hsm by (apply small_17; lia).
+  pose proof (decimalLength17_declen m ltac:(lia)) as Hl.
+  destruct (declen_spec m Hsm) as (L1 & L2 & L3).
+  unfold adapt. destruct (Z.ltb_spec prec (- e)) as [Hlt | Hge].
+  2:{ repeat split; try lia. }
+  set (dtt := - e - prec). assert (1 <= dtt) by (unfold dtt; lia).
+  destruct (Z.ltb_spec (decimalLength17 m) dtt) as [Hbig | Hfit].
+  - (* all digits are dropped: m < 10^olength <= 10^(dtt-1), the rounded value is 0 *)
+    assert (m < 10 ^ (dtt - 1)).
+    { eapply Z.lt_le_trans; [exact L2|]. apply pow10_le. lia. }
+    assert (round_half_even m (10 ^ dtt) = 0) as R0.
+    { unfold round_half_even. rewrite div_eucl_pair.
+      assert (10 ^ dtt = 10 * 10 ^ (dtt - 1)) as E10 by (replace dtt with ((dtt - 1) + 1) at 1 by lia; apply pow10_S; lia).
+      assert (0 < 10 ^ (dtt - 1)) by (apply pow10_pos; lia).
+      rewrite Z.div_small, Z.mod_small by lia.
+      destruct (Z.compare_spec (2 * m) (10 ^ dtt)); first [lia | reflexivity]. }
+    split; [lia|]. split; [intros _; rewrite R0; lia|]. repeat split; try lia; pow_norm; lia.
+  - unfold pow_10. fold dtt.
+    set (D := 10 ^ dtt). assert (0 < D) by (apply pow10_pos; lia).
+    assert (D = 2 * (D / 2)) as Heven.
+    { unfold D. replace dtt with ((dtt - 1) + 1) by lia. rewrite pow10_S by lia.
+      replace (10 * 10 ^ (dtt - 1)) with ((5 * 10 ^ (dtt - 1)) * 2) by ring. rewrite Z.div_mul by lia. ring. }
+    set (q := m / D). set (r := m - q * D).
+    assert (r = m mod D) as Hr by (unfold r, q; pose proof (Z.div_mod m D ltac:(lia)); lia).
+    pose proof (Z.mod_pos_bound m D ltac:(lia)) as Hrb.
+    assert (0 <= q) by (apply Z.div_pos; lia).
+    assert (q * 10 < 10 ^ 17 /\ q * D <= m) as [Hq Hq2].
+    { pose proof (Z.div_mod m D ltac:(lia)). fold q in H2.
+      assert (10 <= D) by (unfold D; replace dtt with ((dtt - 1) + 1) by lia; rewrite pow10_S by lia; pose proof (pow10_pos (dtt - 1) ltac:(lia)); lia).
+      split; nia. }
+    (* the value selected by the C condition is round_half_even *)
+    assert (round_half_even m D = if (D / 2 <? r) || ((r =? D / 2) && Z.odd q) then q + 1 else q) as HR.
+    { unfold round_half_even. rewrite div_eucl_pair. fold q. rewrite <- Hr.
+      destruct (Z.compare_spec (2 * r) D) as [E | L | G].
+      - assert (r = D / 2) as -> by lia. rewrite Z.ltb_irrefl, Z.eqb_refl. cbn [orb andb].
+        rewrite <- Z.negb_even. destruct (Z.even q); reflexivity.
+      - destruct (Z.ltb_spec (D / 2) r); [lia|]. destruct (Z.eqb_spec r (D / 2)); [lia|]. reflexivity.
+      - destruct (Z.ltb_spec (D / 2) r); [reflexivity | lia]. }
+    (* q has olength - dtt digits unless it is 0 *)
+    assert (1 <= q -> decimalLength17 m - dtt = Z.of_nat (declen q)) as Hlq.
+    { intros Hq1.
+      assert (1 <= decimalLength17 m - dtt) as Hge1.
+      { destruct (Z.eq_dec (decimalLength17 m) dtt) as [E|NE]; [|lia].
+        exfalso. assert (m < D) by (unfold D; rewrite <- E, Hl; exact L2).
+        assert (q = 0) by (apply Z.div_small; lia). lia. }
+      symmetry. apply declen_unique_Z; [apply small_17; pow_norm; lia | exact Hge1 | | ].
+      - apply Z.div_lt_upper_bound; [lia|]. unfold D. rewrite <- pow10_split by lia.
+        replace (dtt + (decimalLength17 m - dtt)) with (Z.of_nat (declen m)) by lia. exact L2.
+      - destruct (Z.eq_dec (decimalLength17 m - dtt) 1) as [E1|N1]; [left; assumption | right].
+        apply Z.div_le_lower_bound; [lia|]. unfold D. rewrite <- pow10_split by lia.
+        destruct L3 as [L3 | L3]; [lia|].
+        replace (dtt + (decimalLength17 m - dtt - 1)) with (Z.of_nat (declen m) - 1) by lia. exact L3. }
+    assert (forall R l, (R = q /\ l = decimalLength17 m - dtt \/ R = q + 1 /\ l = decimalLength17 (q + 1)) -> R = round_half_even m D ->
+      let '(o', e', l') := strip_zeros 20 R (e + dtt) l in
+      (- e <= prec -> o' = m /\ e' = e) /\
+      (prec < - e -> o' * 10 ^ (e' - e) = round_half_even m D * D) /\
+      e <= e' /\ 0 <= o' < 10 ^ 17 /\ (o' = 0 \/ l' = Z.of_nat (declen o')) /\ (prec < - e -> - prec <= e') /\
+      (o' = 0 -> e' <= 0) /\ (0 < o' -> l' + e' <= decimalLength17 m + e + 1)) as Hgen.
+    { intros R l HRl HRR.
+      assert (0 <= R < 10 ^ 17) as HRb by (destruct HRl as [[-> _] | [-> _]]; pow_norm; lia).
+      pose proof (strip_zeros_spec 20 R (e + dtt) l ltac:(lia) (small_17 R HRb)) as S.
+      destruct (strip_zeros 20 R (e + dtt) l) as [[o' e'] l'].
+      destruct S as (S1 & S2 & S3 & S4 & S5 & S6 & S7).
+      split; [lia|]. split.
+      { intros _. rewrite <- HRR, <- S1. unfold D. replace (e' - e) with ((e' - (e + dtt)) + dtt) by lia. rewrite pow10_split by lia. ring. }
+      split; [lia|].
+      assert (o' <= R) as Hle.
+      { assert (1 <= 10 ^ (e' - (e + dtt))) by (pose proof (pow10_pos (e' - (e + dtt)) ltac:(lia)); lia). nia. }
+      assert (o' = 0 \/ l' = Z.of_nat (declen o')) as Hl'.
+      { destruct (Z.eq_dec R 0) as [R0 | Rn]; [left; apply S5; assumption|]. right. apply S7; [lia|].
+        destruct HRl as [[-> ->] | [-> ->]]; [apply Hlq; lia | apply decimalLength17_declen; pow_norm; lia]. }
+      split; [lia|]. split; [exact Hl'|]. split; [intros; unfold dtt in S2; lia|]. split.
+      - intros O0. destruct (Z.eq_dec R 0) as [R0 | Rn]; [destruct (S5 R0) as [_ ->]; unfold dtt; lia|].
+        assert (0 < o') by (apply S6; lia). lia.
+      - intros Opos. destruct Hl' as [-> | Hl']; [lia|].
+        (* 10^(l'-1) <= o', o' * 10^(e' - e1) = R <= q + 1 <= 10^(olength - dtt) *)
+        assert (R <= 10 ^ (decimalLength17 m - dtt)) as HRle.
+        { assert (q < 10 ^ (decimalLength17 m - dtt)).
+          { apply Z.div_lt_upper_bound; [lia|]. unfold D. rewrite <- pow10_split by lia.
+            replace (dtt + (decimalLength17 m - dtt)) with (Z.of_nat (declen m)) by lia. exact L2. }
+          destruct HRl as [[-> _] | [-> _]]; lia. }
+        destruct (declen_spec o' S4) as (B1 & B2 & B3).
+        assert (10 ^ (l' - 1) <= o') as Hlow.
+        { rewrite Hl'. destruct B3 as [-> | B3]; [change (10 ^ (Z.of_nat 1 - 1)) with 1; lia | exact B3]. }
+        assert (10 ^ (l' - 1 + (e' - (e + dtt))) <= 10 ^ (decimalLength17 m - dtt)) as Hpw.
+        { rewrite pow10_split by lia. eapply Z.le_trans; [|exact HRle]. rewrite <- S1.
+          apply Z.mul_le_mono_nonneg_r; [apply Z.lt_le_incl, pow10_pos; lia | exact Hlow]. }
+        apply Z.pow_le_mono_r_iff in Hpw; lia. }
+    destruct ((D / 2 <? r) || ((r =? D / 2) && Z.odd q)).
+    + apply Hgen; [right; split; reflexivity | symmetry; exact HR].
+    + apply Hgen; [left; split; reflexivity | symmetry; exact HR].
+Qed.
+
+(* ------------------------------------------------------------------ reading back what the layout emits *)
+Lemma digit_not_sign : forall c t, is_digit c = true -> split_sign (c :: t) = (false, c :: t).
+Proof. intros c t H. destruct c as [[] [] [] [] [] [] [] []]; try discriminate H; reflexivity. Qed.
+
+Lemma digit_not_dot_e : forall c, is_digit c = true -> Ascii.eqb c "."%char = false /\ Ascii.eqb (lower c) "e"%char = false.
+Proof. intros c H. destruct c as [[] [] [] [] [] [] [] []]; try discriminate H; split; reflexivity. Qed.
+
+Definition stops (b : str) : Prop := match b with c :: _ => is_digit c = false | [] => True end.
+
+Lemma span_digits_app : forall a b, all_digits a -> stops b -> span_digits (a ++ b) = (a, b).
+Proof.
+  induction a as [|c a IH]; intros b Ha Hb; cbn [app span_digits].
+  - destruct b as [|c b]; [reflexivity|]. cbn in Hb. cbn [span_digits]. rewrite Hb. reflexivity.
+  - inversion Ha; subst. rewrite H1. rewrite (IH b H2 Hb). reflexivity.
+Qed.
+
+Lemma span_digits_all : forall a, all_digits a -> span_digits a = (a, []).
+Proof. intros. rewrite <- (app_nil_r a) at 1. apply span_digits_app; [assumption | exact I]. Qed.
+
+Definition dot_part (FP : str) : str := match FP with [] => [] | _ => "."%char :: FP end.
+
+(* the exponent suffix of the scientific layout, abstractly: e, a sign, digits *)
+Definition exp_part (sg : bool) (ED : str) : str := "e"%char :: (if sg then "-"%char else "+"%char) :: ED.
+
+Lemma parse_decimal_plain : forall neg IP FP, all_digits IP -> all_digits FP -> IP <> [] ->
+  parse_decimal neg (IP ++ dot_part FP) = Some (NVdec neg (dec_value (IP ++ FP)) (- Z.of_nat (List.length FP))).
+Proof.
+  intros neg IP FP HI HF Hne. unfold parse_decimal.
+  destruct FP as [|f FP].
+  - cbn [dot_part]. rewrite app_nil_r. rewrite (span_digits_all IP HI). rewrite app_nil_r.
+    destruct IP; [congruence|]. reflexivity.
+  - cbn [dot_part]. rewrite (span_digits_app IP ("."%char :: f :: FP) HI) by reflexivity.
+    rewrite (span_digits_all (f :: FP) HF).
+    destruct IP as [|i IP]; [congruence|]. reflexivity.
+Qed.
+
+Lemma parse_decimal_exp : forall neg IP FP sg ED, all_digits IP -> all_digits FP -> IP <> [] -> all_digits ED -> ED <> [] ->
+  parse_decimal neg (IP ++ dot_part FP ++ exp_part sg ED) =
+  Some (NVdec neg (dec_value (IP ++ FP)) ((if sg then - dec_value ED else dec_value ED) - Z.of_nat (List.length FP))).
+Proof.
+  intros neg IP FP sg ED HI HF Hne HE HEne. unfold parse_decimal.
+  assert (split_sign ((if sg then "-"%char else "+"%char) :: ED) = (sg, ED)) as HS by (destruct sg; reflexivity).
+  destruct FP as [|f FP].
+  - cbn [dot_part app]. rewrite (span_digits_app IP (exp_part sg ED) HI) by reflexivity. rewrite app_nil_r.
+    destruct IP as [|i IP]; [congruence|]. cbn [app].
+    unfold exp_part. change (Ascii.eqb (lower "e"%char) "e"%char) with true. cbn iota.
+    rewrite HS. rewrite (span_digits_all ED HE). destruct ED; [congruence|]. cbn [app]. rewrite ?app_nil_r. reflexivity.
+  - cbn [dot_part]. rewrite <- app_comm_cons. rewrite (span_digits_app IP ("."%char :: (f :: FP) ++ exp_part sg ED) HI) by reflexivity.
+    rewrite (span_digits_app (f :: FP) (exp_part sg ED) HF) by reflexivity.
+    destruct IP as [|i IP]; [congruence|]. cbn [app].
+    unfold exp_part. change (Ascii.eqb (lower "e"%char) "e"%char) with true. cbn iota.
+    rewrite HS. rewrite (span_digits_all ED HE). destruct ED; [congruence|]. cbn [app]. rewrite ?app_nil_r. reflexivity.
+Qed.
+
+Lemma parse_number_signed : forall (neg : bool) body c t, body = c :: t -> is_digit c = true ->
+  parse_number ((if neg then ["-"%char] else []) ++ body) = parse_decimal neg body.
+Proof.
+  intros neg body c t -> Hc. unfold parse_number. destruct neg; cbn [app].
+  - cbn [split_sign]. rewrite Hc. reflexivity.
+  - rewrite (digit_not_sign c t Hc). rewrite Hc. reflexivity.
+Qed.
+
+(* ------------------------------------------------------------------ the value of a decimal (mantissa, exponent) pair, compared exactly *)
+Definition same_val (n1 e1 n2 e2 : Z) : Prop :=
+  n1 * 10 ^ (e1 - Z.min e1 e2) = n2 * 10 ^ (e2 - Z.min e1 e2).
+
+(* what the emitted parts denote *)
+Definition parts_N (p : parts) : Z :=
+  if p_dec p =? 0 then p_int p * 10 ^ p_tz p
+  else p_int p * 10 ^ p_tz p * 10 ^ (p_lz p + Z.of_nat (declen (p_dec p))) + p_dec p.
+Definition parts_E (p : parts) : Z :=
+  if p_dec p =? 0 then 0 else - (p_lz p + Z.of_nat (declen (p_dec p))).
+
+Definition parts_ok (p : parts) : Prop :=
+  0 <= p_int p < 10 ^ 17 /\ 0 <= p_dec p < 10 ^ 17 /\ 0 <= p_tz p /\ 0 <= p_lz p.
+
+Lemma emit_parts_body : forall sign p, parts_ok p ->
+  emit_parts sign p =
+  (if sign && (negb (p_int p =? 0) || negb (p_dec p =? 0)) then ["-"%char] else []) ++
+  (digits_of (p_int p) ++ zeros (Z.to_nat (p_tz p))) ++
+  dot_part (if p_dec p =? 0 then [] else zeros (Z.to_nat (p_lz p)) ++ digits_of (p_dec p)).
+Proof.
+  intros sign p Hok. unfold emit_parts, to_chars_uint64. f_equal. rewrite <- app_assoc. f_equal. f_equal.
+  destruct (Z.eqb_spec (p_dec p) 0); cbn [negb]; [reflexivity|].
+  destruct Hok as (_ & Hd & _).
+  destruct (digits_of_nonempty (p_dec p) (small_17 _ Hd)) as (c & t & E & _).
+  unfold dot_part. destruct (zeros (Z.to_nat (p_lz p)) ++ digits_of (p_dec p)) eqn:EE; [|reflexivity].
+  apply app_eq_nil in EE. destruct EE as [_ EE]. rewrite E in EE. discriminate.
+Qed.
+
+Lemma parts_body_facts : forall p, parts_ok p ->
+  let IP := digits_of (p_int p) ++ zeros (Z.to_nat (p_tz p)) in
+  let FP := if p_dec p =? 0 then [] else zeros (Z.to_nat (p_lz p)) ++ digits_of (p_dec p) in
+  all_digits IP /\ all_digits FP /\ IP <> [] /\ (exists c t, IP ++ dot_part FP = c :: t /\ is_digit c = true) /\
+  dec_value (IP ++ FP) = parts_N p /\ - Z.of_nat (List.length FP) = parts_E p.
+Proof.
+  intros p (Hi & Hd & Ht & Hl). cbn zeta.
+  pose proof (small_17 _ Hi) as Si. pose proof (small_17 _ Hd) as Sd.
+  destruct (digits_of_nonempty (p_int p) Si) as (c & t & Ec & Hc).
+  assert (all_digits (digits_of (p_int p) ++ zeros (Z.to_nat (p_tz p)))) as A1 by (apply Forall_app; split; [apply digits_of_all_digits | apply zeros_all_digits]).
+  split; [exact A1|].
+  assert (all_digits (if p_dec p =? 0 then [] else zeros (Z.to_nat (p_lz p)) ++ digits_of (p_dec p))) as A2.
+  { destruct (p_dec p =? 0); [constructor|]. apply Forall_app; split; [apply zeros_all_digits | apply digits_of_all_digits]. }
+  split; [exact A2|]. split; [rewrite Ec; discriminate|]. split.
+  { exists c. rewrite Ec. cbn [app]. eexists; split; [reflexivity | exact Hc]. }
+  unfold parts_N, parts_E. destruct (Z.eqb_spec (p_dec p) 0) as [E0 | N0].
+  - rewrite app_nil_r, dec_value_app, zeros_length, dec_value_zeros, digits_of_value by assumption.
+    rewrite Z2Nat.id by lia. split; [ring | reflexivity].
+  - rewrite !dec_value_app, !app_length, !zeros_length, !dec_value_zeros, !digits_of_value, digits_of_length by assumption.
+    rewrite Nat2Z.inj_add, !Z2Nat.id by lia. split; [|reflexivity].
+    rewrite pow10_split by lia. ring.
+Qed.
+
+Lemma parse_emit_parts : forall sign p, parts_ok p ->
+  parse_number (emit_parts sign p) =
+  Some (NVdec (sign && (negb (p_int p =? 0) || negb (p_dec p =? 0))) (parts_N p) (parts_E p)).
+Proof.
+  intros sign p Hok. rewrite emit_parts_body by assumption.
+  destruct (parts_body_facts p Hok) as (A1 & A2 & A3 & (c & t & Ec & Hc) & HN & HE).
+  rewrite (parse_number_signed _ _ c t Ec Hc).
+  rewrite parse_decimal_plain by assumption. rewrite HN, HE. reflexivity.
+Qed.
+
+Lemma declen_le : forall n k, 0 <= n < 10 ^ k -> 1 <= k -> small n -> Z.of_nat (declen n) <= k.
+Proof.
+  intros n k Hn Hk Hs. destruct (declen_spec n Hs) as (A & B & [C | C]); [lia|].
+  destruct (Z.le_gt_cases (Z.of_nat (declen n)) k) as [|G]; [assumption|exfalso].
+  assert (10 ^ k <= 10 ^ (Z.of_nat (declen n) - 1)) by (apply pow10_le; lia). lia.
+Qed.
+
+Lemma same_val_refl : forall n e, same_val n e n e.
+Proof. intros. reflexivity. Qed.
+
+Lemma split_parts_spec : forall o e l, 0 <= o < 10 ^ 17 -> (o = 0 \/ l = Z.of_nat (declen o)) ->
+  let p := split_parts o e l in
+  parts_ok p /\ same_val (parts_N p) (parts_E p) o e /\ (o = 0 -> p_int p = 0 /\ p_dec p = 0) /\ (0 < o -> 0 < p_int p \/ 0 < p_dec p).
+Proof.
+  intros o e l Ho Hl. pose proof (small_17 o Ho) as So.
+  unfold split_parts. destruct (Z.leb_spec 0 e) as [He | He].
+  - cbn zeta. unfold parts_ok, parts_N, parts_E, same_val. cbn [p_int p_dec p_tz p_lz]. rewrite Z.eqb_refl.
+    rewrite Z.min_l by lia. rewrite !Z.sub_0_r. change (10 ^ 0) with 1.
+    repeat split; try lia; change (10 ^ 17) with 100000000000000000; lia.
+  - set (nexp := - e). assert (1 <= nexp) by (unfold nexp; lia).
+    assert (0 < 10 ^ nexp) as Ppos by (apply pow10_pos; lia).
+    destruct (Z.ltb_spec nexp l) as [Hin | Hout].
+    + unfold pow_10.
+      set (ip := o / 10 ^ nexp). set (dp := o mod 10 ^ nexp).
+      pose proof (Z.div_mod o (10 ^ nexp) ltac:(lia)) as DM. fold ip dp in DM.
+      pose proof (Z.mod_pos_bound o (10 ^ nexp) Ppos) as DB. fold dp in DB.
+      assert (0 <= ip) by (apply Z.div_pos; lia).
+      assert (ip <= o) by nia.
+      assert (dp <= o) by nia.
+      assert (small dp) as Sdp by (apply small_17; lia).
+      replace (l - (l - nexp)) with nexp by lia.
+      assert (Z.of_nat (declen dp) <= nexp) as Dle by (apply declen_le; try assumption; lia).
+      assert (decimalLength17 dp = Z.of_nat (declen dp)) as D17 by (apply decimalLength17_declen; lia).
+      assert (o = 0 \/ 1 <= ip) as Hip.
+      { destruct Hl as [-> | Hl]; [left; reflexivity | right].
+        destruct (declen_spec o So) as (A & B & [C | C]); [lia|].
+        apply Z.div_le_lower_bound; [lia|]. rewrite Z.mul_1_r.
+        eapply Z.le_trans; [|exact C]. apply pow10_le. lia. }
+      assert (forall dpl lz, lz + Z.of_nat (declen dp) = nexp -> 0 <= lz ->
+              let p := {| p_int := ip; p_int_len := l - nexp; p_tz := 0; p_dec := dp; p_dec_len := dpl; p_lz := lz |} in
+              parts_ok p /\ same_val (parts_N p) (parts_E p) o e /\ (o = 0 -> p_int p = 0 /\ p_dec p = 0) /\ (0 < o -> 0 < p_int p \/ 0 < p_dec p)) as Hgen.
+      { intros dpl lz Hsum Hlz. cbn zeta. unfold parts_ok, parts_N, parts_E, same_val. cbn [p_int p_dec p_tz p_lz].
+        change (10 ^ 0) with 1. rewrite Hsum.
+        split; [repeat split; lia|]. split.
+        - destruct (Z.eqb_spec dp 0) as [E0 | N0].
+          + rewrite Z.min_r by lia. replace (e - e) with 0 by lia. change (10 ^ 0) with 1. replace (0 - e) with nexp by (unfold nexp; lia). lia.
+          + replace (- nexp) with e by (unfold nexp; lia). rewrite Z.min_id, Z.sub_diag. change (10 ^ 0) with 1. lia.
+        - split; [intros ->; unfold ip, dp; rewrite Z.div_0_l, Z.mod_0_l by lia; split; reflexivity|]. lia. }
+      destruct (Z.ltb_spec dp (10 ^ (nexp - 1))) as [Hsmall | Hbig].
+      * rewrite D17. apply Hgen; lia.
+      * apply Hgen; [|lia].
+        assert (Z.of_nat (declen dp) = nexp); [|lia].
+        apply declen_unique_Z; try assumption; try lia.
+    + cbn zeta. unfold parts_ok, parts_N, parts_E, same_val. cbn [p_int p_dec p_tz p_lz].
+      change (10 ^ 0) with 1.
+      destruct (Z.eqb_spec o 0) as [-> | N0].
+      * rewrite !Z.mul_0_l. repeat split; try lia; change (10 ^ 17) with 100000000000000000; lia.
+      * destruct Hl as [-> | Hl]; [congruence|].
+        replace (- (nexp - l + Z.of_nat (declen o))) with e by (unfold nexp; lia). rewrite Z.min_id, Z.sub_diag. change (10 ^ 0) with 1.
+        repeat split; try lia; change (10 ^ 17) with 100000000000000000; lia.
+Qed.
+
+
+(* ------------------------------------------------------------------ exact rational values *)
+From Coq Require Import QArith Qabs Qpower.
+Local Open Scope Z_scope.
+
+Definition dval (n e : Z) : Q := (inject_Z n * (10 # 1) ^ e)%Q.
+
+Lemma ten_nz : ~ ((10 # 1) == 0)%Q.
+Proof. discriminate. Qed.
+
+Lemma ten_pow_pos : forall e, (0 < (10 # 1) ^ e)%Q.
+Proof. intros. apply Qpower_0_lt. reflexivity. Qed.
+
+Lemma inject_pow10 : forall k, 0 <= k -> (inject_Z (10 ^ k) == (10 # 1) ^ k)%Q.
+Proof. intros. rewrite Zpower_Qpower by assumption. reflexivity. Qed.
+
+Lemma dval_shift : forall n e k, 0 <= k -> (dval (n * 10 ^ k) (e - k) == dval n e)%Q.
+Proof.
+  intros n e k Hk. unfold dval. rewrite inject_Z_mult, inject_pow10 by assumption.
+  replace e with ((e - k) + k) at 2 by lia. rewrite (Qpower_plus _ (e - k) k ten_nz). ring.
+Qed.
+
+Lemma same_val_dval : forall n1 e1 n2 e2, same_val n1 e1 n2 e2 -> (dval n1 e1 == dval n2 e2)%Q.
+Proof.
+  intros n1 e1 n2 e2 H. unfold same_val in H. set (mn := Z.min e1 e2) in *.
+  rewrite <- (dval_shift n1 e1 (e1 - mn)) by (unfold mn; lia).
+  rewrite <- (dval_shift n2 e2 (e2 - mn)) by (unfold mn; lia).
+  rewrite H. replace (e1 - (e1 - mn)) with (e2 - (e2 - mn)) by lia. reflexivity.
+Qed.
+
+Lemma dval_minus : forall a b e, (dval a e - dval b e == dval (a - b) e)%Q.
+Proof. intros. unfold dval, Z.sub. rewrite inject_Z_plus, inject_Z_opp. ring. Qed.
+
+Lemma dval_abs : forall z e, (Qabs (dval z e) == dval (Z.abs z) e)%Q.
+Proof.
+  intros. unfold dval. rewrite Qabs_Qmult. rewrite (Qabs_pos ((10 # 1) ^ e)) by (apply Qlt_le_weak, ten_pow_pos). reflexivity.
+Qed.
+
+Lemma dval_le : forall a b e, a <= b -> (dval a e <= dval b e)%Q.
+Proof.
+  intros. unfold dval. apply Qmult_le_compat_r; [rewrite <- Zle_Qle; assumption | apply Qlt_le_weak, ten_pow_pos].
+Qed.
+
+(* |R*10^-prec - m*10^e| <= 1/2 * 10^-prec  whenever  2*|R*10^dtt - m| <= 10^dtt  and  -prec = e + dtt *)
+Lemma half_unit_bound : forall R m e prec, prec < - e -> 2 * Z.abs (R * 10 ^ (- e - prec) - m) <= 10 ^ (- e - prec) ->
+  (Qabs (dval R (- prec) - dval m e) <= (1 # 2) * (10 # 1) ^ (- prec))%Q.
+Proof.
+  intros R m e prec Hlt H. set (dtt := - e - prec) in *.
+  assert (dval R (- prec) == dval (R * 10 ^ dtt) e)%Q as E1.
+  { rewrite <- (dval_shift R (- prec) dtt) by (unfold dtt; lia). replace (- prec - dtt) with e by (unfold dtt; lia). reflexivity. }
+  rewrite E1, dval_minus, dval_abs.
+  assert (dval (2 * Z.abs (R * 10 ^ dtt - m)) e <= dval (10 ^ dtt) e)%Q as L by (apply dval_le; assumption).
+  assert (dval (10 ^ dtt) e == (10 # 1) ^ (- prec))%Q as E2.
+  { unfold dval. rewrite inject_pow10 by (unfold dtt; lia). rewrite <- (Qpower_plus _ dtt e ten_nz). replace (dtt + e) with (- prec) by (unfold dtt; lia). reflexivity. }
+  rewrite E2 in L. unfold dval in *. rewrite inject_Z_mult in L.
+  set (x := (inject_Z (Z.abs (R * 10 ^ dtt - m)) * (10 # 1) ^ e)%Q) in *.
+  assert (inject_Z 2 * inject_Z (Z.abs (R * 10 ^ dtt - m)) * (10 # 1) ^ e == 2 * x)%Q as E3 by (unfold x; ring).
+  rewrite E3 in L. clear - L.
+  apply (Qmult_le_l _ _ 2); [reflexivity|]. rewrite Qmult_assoc. setoid_replace (2 * (1 # 2))%Q with 1%Q by reflexivity. rewrite Qmult_1_l. exact L.
+Qed.
+
+Lemma same_val_sym : forall a ea b eb, same_val a ea b eb -> same_val b eb a ea.
+Proof. unfold same_val. intros. rewrite (Z.min_comm eb ea). symmetry. assumption. Qed.
+
+(* ------------------------------------------------------------------ the fixed layout: value, rounding error, no "-0" *)
+Theorem fixed_layout_value : forall m e sign prec, 1 <= m < 10 ^ 17 -> 0 <= prec ->
+  exists N E,
+    parse_number (to_chars_fixed m e sign prec) = Some (NVdec (sign && negb (N =? 0)) N E) /\ 0 <= N /\
+    (0 <= e \/ - e <= prec -> (dval N E == dval m e)%Q) /\
+    (e < 0 -> prec < - e -> (dval N E == dval (round_half_even m (10 ^ (- e - prec))) (- prec))%Q) /\
+    (Qabs (dval N E - dval m e) <= (1 # 2) * (10 # 1) ^ (- prec))%Q.
+Proof.
+  intros m e sign prec Hm Hp. unfold to_chars_fixed, fixed_parts.
+  assert (forall o' e' l', 0 <= o' < 10 ^ 17 -> (o' = 0 \/ l' = Z.of_nat (declen o')) ->
+          exists N E, parse_number (emit_parts sign (split_parts o' e' l')) = Some (NVdec (sign && negb (N =? 0)) N E) /\ 0 <= N /\
+                      (dval N E == dval o' e')%Q) as Hemit.
+  { intros o' e' l' Ho Hl.
+    destruct (split_parts_spec o' e' l' Ho Hl) as (Hok & Hsv & Hz & Hnz).
+    set (p := split_parts o' e' l') in *.
+    exists (parts_N p), (parts_E p). rewrite parse_emit_parts by assumption.
+    destruct Hok as (Hi & Hd & Ht & Hlz).
+    assert (0 <= parts_N p /\ ((parts_N p =? 0) = (p_int p =? 0) && (p_dec p =? 0))) as [HN0 HNz].
+    { unfold parts_N. destruct (Z.eqb_spec (p_dec p) 0) as [E0 | N0].
+      - pose proof (pow10_pos (p_tz p) Ht). split; [nia|]. rewrite andb_true_r.
+        destruct (Z.eqb_spec (p_int p) 0) as [-> | Ni]; [reflexivity|]. apply Z.eqb_neq. nia.
+      - rewrite andb_false_r.
+        pose proof (pow10_pos (p_tz p) Ht). pose proof (pow10_pos (p_lz p + Z.of_nat (declen (p_dec p))) ltac:(lia)).
+        assert (0 <= p_int p * 10 ^ p_tz p * 10 ^ (p_lz p + Z.of_nat (declen (p_dec p)))) by nia.
+        split; [lia|]. apply Z.eqb_neq. lia. }
+    split; [|split; [exact HN0 | apply same_val_dval; exact Hsv]].
+    do 2 f_equal. rewrite HNz. destruct (p_int p =? 0), (p_dec p =? 0); reflexivity. }
+  assert (forall x y : Q, (x == y)%Q -> (Qabs (x - y) <= (1 # 2) * (10 # 1) ^ (- prec))%Q) as Hzero.
+  { intros x y Exy. setoid_replace (x - y)%Q with 0%Q by (rewrite Exy; ring). cbn [Qabs Z.abs].
+    apply Qmult_le_0_compat; [discriminate | apply Qlt_le_weak, ten_pow_pos]. }
+  destruct (Z.leb_spec 0 e) as [He | He].
+  - destruct (Hemit m e (decimalLength17 m) ltac:(lia)) as (N & E & P1 & P2 & P3).
+    { right. apply decimalLength17_declen. lia. }
+    exists N, E. split; [exact P1|]. split; [exact P2|]. split; [intros _; exact P3|]. split; [lia|]. apply Hzero. exact P3.
+  - pose proof (adapt_spec m e prec Hm He Hp) as HA.
+    destruct (adapt m e (decimalLength17 m) prec) as [[o' e'] l'].
+    destruct HA as (A1 & A2 & A3 & A4 & A5 & A6 & A7 & A8).
+    destruct (Hemit o' e' l' A4 A5) as (N & E & P1 & P2 & P3).
+    exists N, E. split; [exact P1|]. split; [exact P2|].
+    destruct (Z.le_gt_cases (- e) prec) as [G | G].
+    + destruct (A1 G) as [-> ->]. split; [intros _; exact P3|]. split; [lia|]. apply Hzero. exact P3.
+    + specialize (A2 G). specialize (A6 G).
+      assert (same_val o' e' (round_half_even m (10 ^ (- e - prec))) (- prec)) as SV.
+      { unfold same_val. rewrite Z.min_r by lia. rewrite Z.sub_diag. change (10 ^ 0) with 1. rewrite Z.mul_1_r.
+        assert (0 < 10 ^ (- e - prec)) by (apply pow10_pos; lia).
+        apply (Z.mul_cancel_r _ _ (10 ^ (- e - prec))); [lia|]. rewrite <- A2.
+        rewrite <- Z.mul_assoc, <- pow10_split by lia. f_equal. f_equal. lia. }
+      pose proof (same_val_dval _ _ _ _ SV) as EQ.
+      split; [lia|]. split; [intros _ _; rewrite P3; exact EQ|].
+      rewrite P3, EQ. apply half_unit_bound; [lia|].
+      apply round_half_even_bound. apply pow10_pos. lia.
+Qed.
+
+(* ------------------------------------------------------------------ the number language: every emitted string is a number token *)
+Definition no_delim (s : str) : Prop := Forall (fun c => is_delim c = false) s.
+Definition number_token (s : str) : Prop := is_number s = true /\ no_delim s.
+
+Lemma digit_no_delim : forall c, is_digit c = true -> is_delim c = false.
+Proof. intros c H. destruct c as [[] [] [] [] [] [] [] []]; try discriminate H; reflexivity. Qed.
+
+Lemma all_digits_no_delim : forall s, all_digits s -> no_delim s.
+Proof. intros s H. induction H; constructor; auto using digit_no_delim. Qed.
+
+Lemma no_delim_app : forall a b, no_delim a -> no_delim b -> no_delim (a ++ b).
+Proof. intros. apply Forall_app; split; assumption. Qed.
+
+Lemma no_delim_sign : forall (b : bool), no_delim (if b then ["-"%char] else []).
+Proof. destruct b; repeat constructor. Qed.
+
+Lemma no_delim_dot_part : forall FP, all_digits FP -> no_delim (dot_part FP).
+Proof. intros [|f FP] H; [constructor|]. constructor; [reflexivity | apply all_digits_no_delim; assumption]. Qed.
+
+Lemma emit_parts_no_delim : forall sign p, parts_ok p -> no_delim (emit_parts sign p).
+Proof.
+  intros sign p Hok. rewrite emit_parts_body by assumption.
+  destruct (parts_body_facts p Hok) as (A1 & A2 & _).
+  apply no_delim_app; [apply no_delim_sign|]. apply no_delim_app; [apply all_digits_no_delim; exact A1 | apply no_delim_dot_part; exact A2].
+Qed.
+
+Lemma fixed_parts_ok : forall m e prec, 1 <= m < 10 ^ 17 -> 0 <= prec -> parts_ok (fixed_parts m e prec).
+Proof.
+  intros m e prec Hm Hp. unfold fixed_parts.
+  destruct (Z.leb_spec 0 e) as [He | He].
+  - apply split_parts_spec; [lia | right; apply decimalLength17_declen; lia].
+  - pose proof (adapt_spec m e prec Hm He Hp) as HA.
+    destruct (adapt m e (decimalLength17 m) prec) as [[o' e'] l']. destruct HA as (_ & _ & _ & A4 & A5 & _).
+    apply split_parts_spec; assumption.
+Qed.
+
+Lemma exp_suffix_shape : forall e, small (Z.abs e) ->
+  exp_suffix e = exp_part (e <? 0) (digits_of (Z.abs e)) /\ all_digits (digits_of (Z.abs e)) /\ digits_of (Z.abs e) <> [].
+Proof.
+  intros e Hs. split; [reflexivity|]. split; [apply digits_of_all_digits|].
+  destruct (digits_of_nonempty _ Hs) as (c & t & -> & _). discriminate.
+Qed.
+
+(* the scientific layout parses as mantissa digits with the printed exponent added *)
+Lemma parse_emit_parts_exp : forall sign p e, parts_ok p -> small (Z.abs e) ->
+  parse_number (emit_parts sign p ++ exp_suffix e) =
+  Some (NVdec (sign && (negb (p_int p =? 0) || negb (p_dec p =? 0))) (parts_N p) (e + parts_E p)).
+Proof.
+  intros sign p e Hok Hs. rewrite emit_parts_body by assumption.
+  destruct (parts_body_facts p Hok) as (A1 & A2 & A3 & (c & t & Ec & Hc) & HN & HE).
+  destruct (exp_suffix_shape e Hs) as (-> & D1 & D2).
+  set (IP := digits_of (p_int p) ++ zeros (Z.to_nat (p_tz p))) in *.
+  set (FP := if p_dec p =? 0 then [] else zeros (Z.to_nat (p_lz p)) ++ digits_of (p_dec p)) in *.
+  rewrite <- !app_assoc.
+  assert (exists t', IP ++ dot_part FP ++ exp_part (e <? 0) (digits_of (Z.abs e)) = c :: t') as (t' & Ec').
+  { rewrite app_assoc, Ec. eexists. reflexivity. }
+  rewrite (parse_number_signed _ _ c t' Ec' Hc).
+  rewrite parse_decimal_exp by assumption. rewrite HN. do 2 f_equal.
+  rewrite digits_of_value by assumption. rewrite <- HE.
+  destruct (Z.ltb_spec e 0); lia.
+Qed.
+
+Lemma exp_suffix_no_delim : forall e, no_delim (exp_suffix e).
+Proof.
+  intros. unfold exp_suffix. constructor; [reflexivity|]. constructor; [destruct (e <? 0); reflexivity|].
+  apply all_digits_no_delim, digits_of_all_digits.
+Qed.
+
+Lemma special_number_token : forall d, match d with DFin _ _ _ _ => True | _ => number_token (special_str d) end.
+Proof.
+  intros [s | s | s | s m2 e2 c]; try exact I; try (destruct s); split; try reflexivity; repeat constructor.
+Qed.
+
+(* every string of the trimmed writer, for whatever digits 1 <= k < 10^17 it is handed, is a number token *)
+Theorem trimmed_number_token : forall d k g prec, 1 <= k < 10 ^ 17 -> 0 <= prec -> -1000 <= g <= 1000 ->
+  number_token (print_trimmed_sd d (k, g) prec).
+Proof.
+  intros d k g prec Hk Hp Hg.
+  assert (forall p, 0 <= p -> number_token (d2sfixed_sd d (k, g) p)) as Hfix.
+  { intros p Hp0. destruct d as [s | s | s | s m2 e2 c]; try apply (special_number_token (DZero s)); try apply (special_number_token (DInf s)); try apply (special_number_token (DNaN s)).
+    cbn [d2sfixed_sd fst snd]. unfold to_chars_fixed. pose proof (fixed_parts_ok k g p Hk Hp0) as Hok. split.
+    - unfold is_number. rewrite parse_emit_parts by assumption. reflexivity.
+    - apply emit_parts_no_delim. assumption. }
+  assert (number_token (d2sexp_sd d (k, g) prec)) as Hexp.
+  { destruct d as [s | s | s | s m2 e2 c]; try apply (special_number_token (DZero s)); try apply (special_number_token (DInf s)); try apply (special_number_token (DNaN s)).
+    cbn [d2sexp_sd fst snd]. unfold to_chars_fixed.
+    pose proof (fixed_parts_ok k (1 - decimalLength17 k) prec Hk Hp) as Hok.
+    assert (small (Z.abs (g + decimalLength17 k - 1))) as Hs.
+    { rewrite decimalLength17_declen by lia. destruct (declen_spec k (small_17 k ltac:(lia))) as (A & _).
+      pose proof (declen_le k 17 ltac:(lia) ltac:(lia) (small_17 k ltac:(lia))).
+      split; [lia|]. apply (Z.lt_le_trans _ (10 ^ 4)); [pow_norm; lia | apply pow10_le; lia]. }
+    split.
+    - unfold is_number. rewrite parse_emit_parts_exp by assumption. reflexivity.
+    - apply no_delim_app; [apply emit_parts_no_delim; assumption | apply exp_suffix_no_delim]. }
+  unfold print_trimmed_sd. destruct d as [s | s | s | s m2 e2 c]; try (apply Hfix; assumption).
+  destruct (dy_leb c1e17_m 0 m2 e2 || dy_ltb m2 e2 c1e_4_m c1e_4_e); [exact Hexp|].
+  apply Hfix. destruct ((prec <? 4) && dy_ltb m2 e2 1 0); lia.
+Qed.
+
+(* ------------------------------------------------------------------ the untrimmed writer (std::fixed) *)
+Lemma decode_range : forall bits s m2 e2 c, decode bits = DFin s m2 e2 c -> 0 < m2 < 2 ^ 53 /\ -1074 <= e2 <= 971.
+Proof.
+  intros bits s m2 e2 c. unfold decode.
+  pose proof (Z.mod_pos_bound (bits / 2 ^ 52) 2048 ltac:(lia)) as He.
+  pose proof (Z.mod_pos_bound bits (2 ^ 52) ltac:(lia)) as Hm.
+  set (expo := (bits / 2 ^ 52) mod 2048) in *. set (mant := bits mod 2 ^ 52) in *.
+  clearbody expo mant.
+  change (2 ^ 52) with 4503599627370496 in *. change (2 ^ 53) with 9007199254740992.
+  destruct (Z.eqb_spec expo 2047); [destruct (mant =? 0); discriminate|].
+  destruct (Z.eqb_spec expo 0).
+  - destruct (Z.eqb_spec mant 0); [discriminate|]. intro E.
+    assert (mant = m2) as <- by exact (f_equal (fun d => match d with DFin _ m _ _ => m | _ => mant end) E).
+    assert (-1074 = e2) as <- by exact (f_equal (fun d => match d with DFin _ _ e _ => e | _ => -1074 end) E).
+    lia.
+  - intro E.
+    assert (4503599627370496 + mant = m2) as <- by exact (f_equal (fun d => match d with DFin _ m _ _ => m | _ => 4503599627370496 + mant end) E).
+    assert (expo - 1075 = e2) as <- by exact (f_equal (fun d => match d with DFin _ _ e _ => e | _ => expo - 1075 end) E).
+    lia.
+Qed.
+
+Lemma round_half_even_le : forall a d, 0 <= a -> 0 < d -> 0 <= round_half_even a d <= a + 1.
+Proof.
+  intros a d Ha Hd. unfold round_half_even. rewrite div_eucl_pair.
+  assert (0 <= a / d) by (apply Z.div_pos; lia).
+  assert (a / d <= a) by (apply Z.div_le_upper_bound; nia).
+  destruct (2 * (a mod d) ?= d); [destruct (Z.even (a / d))| |]; lia.
+Qed.
+
+Lemma zeros_dot_part : forall n, (0 < n)%nat -> dot_part (zeros n) = "."%char :: zeros n.
+Proof. intros [|n] H; [lia | reflexivity]. Qed.
+
+Lemma digs_dot_part : forall n x, (0 < n)%nat -> dot_part (digs n x) = "."%char :: digs n x.
+Proof.
+  intros n x H. pose proof (digs_length n x) as L. unfold dot_part. destruct (digs n x); [cbn in L; lia | reflexivity].
+Qed.
+
+Theorem untrimmed_number_token : forall bits prec, 0 <= prec -> number_token (print_untrimmed bits prec).
+Proof.
+  intros bits prec Hp. unfold print_untrimmed.
+  assert (forall (s : bool) IP FP c t, IP = c :: t -> is_digit c = true -> all_digits IP -> all_digits FP ->
+            number_token ((if s then ["-"%char] else []) ++ IP ++ dot_part FP)) as Hgen.
+  { intros s IP FP c t E Hc A1 A2. split.
+    - unfold is_number. assert (exists t', IP ++ dot_part FP = c :: t') as (t' & E') by (rewrite E; eexists; reflexivity).
+      rewrite (parse_number_signed _ _ c t' E' Hc). rewrite parse_decimal_plain; [reflexivity | assumption | assumption | rewrite E; discriminate].
+    - apply no_delim_app; [apply no_delim_sign|]. apply no_delim_app; [apply all_digits_no_delim; assumption | apply no_delim_dot_part; assumption]. }
+  destruct (decode bits) as [s | s | s | s m2 e2 c] eqn:D.
+  - (* zero *)
+    destruct (Z.ltb_spec 0 prec).
+    + rewrite <- zeros_dot_part by lia. apply (Hgen s ["0"%char] (zeros (Z.to_nat prec)) "0"%char []); try reflexivity; [repeat constructor | apply zeros_all_digits].
+    + apply (Hgen s ["0"%char] [] "0"%char []); try reflexivity; repeat constructor.
+  - destruct s; split; try reflexivity; repeat constructor.
+  - destruct s; split; try reflexivity; repeat constructor.
+  - destruct (decode_range _ _ _ _ _ D) as (Hm & He).
+    set (p := 10 ^ prec). assert (0 < p) by (apply pow10_pos; lia).
+    set (n := if 0 <=? e2 then m2 * 2 ^ e2 * 10 ^ prec else round_half_even (m2 * 10 ^ prec) (2 ^ (- e2))).
+    assert (0 <= n /\ n / p < 2 ^ 1024) as [Hn0 Hnp].
+    { unfold n. destruct (Z.leb_spec 0 e2).
+      - assert (0 < 2 ^ e2) by (apply Z.pow_pos_nonneg; lia).
+        split; [fold p; nia|]. fold p. rewrite Z.div_mul by lia.
+        assert (2 ^ e2 <= 2 ^ 971) by (apply Z.pow_le_mono_r; lia).
+        replace (2 ^ 1024) with (2 ^ 53 * 2 ^ 971) by (rewrite <- Z.pow_add_r by lia; reflexivity). nia.
+      - assert (0 < 2 ^ (- e2)) as Hpw by (apply Z.pow_pos_nonneg; lia).
+        pose proof (round_half_even_le (m2 * 10 ^ prec) (2 ^ (- e2)) ltac:(fold p; nia) Hpw) as [R1 R2].
+        split; [exact R1|]. apply (Z.le_lt_trans _ (m2 + 1)).
+        + apply Z.div_le_upper_bound; [lia|]. unfold p in *. nia.
+        + assert (2 ^ 53 < 2 ^ 1024) by (apply Z.pow_lt_mono_r; lia). lia. }
+    assert (small (n / p)) as Hs.
+    { split; [apply Z.div_pos; lia|]. eapply Z.lt_trans; [exact Hnp|]. vm_compute. reflexivity. }
+    destruct (digits_of_nonempty (n / p) Hs) as (c0 & t0 & E0 & Hc0).
+    destruct (Z.ltb_spec 0 prec).
+    + rewrite <- (digs_dot_part (Z.to_nat prec)) by lia.
+      apply (Hgen s _ _ c0 t0 E0 Hc0); [apply digits_of_all_digits | apply digs_all_digits].
+    + apply (Hgen s _ [] c0 t0 E0 Hc0); [apply digits_of_all_digits | constructor].
 Qed.
